@@ -129,6 +129,87 @@ func runC01(env *Env) {
 			}
 		}
 	}
+	// a task with 1..4 conditional outgoing flows (each to a task and an end event of its own), every truth
+	// assignment, two listing orders: exactly the true flows get a token, the task is requested once
+	var litems []string
+	for k := 1; k <= 4; k++ {
+		for assign := 0; assign < 1<<k; assign++ {
+			if rep.Saturated() {
+				break
+			}
+			if !env.Thorough() && k == 4 && assign%2 == 1 {
+				continue
+			}
+			p := &Prog{}
+			p.Node("start", "start")
+			p.Node("task", "T")
+			p.Flow("start", "T", "")
+			vars := map[string]any{}
+			var cn []int
+			for i := 0; i < k; i++ {
+				x := fmt.Sprintf("X%d", i)
+				p.Node("task", x)
+				p.Node("end", "e"+x)
+				p.Flow("T", x, fmt.Sprintf("c%d", i))
+				p.Flow(x, "e"+x, "")
+				v := assign&(1<<i) != 0
+				vars[fmt.Sprintf("c%d", i)] = v
+				cn = append(cn, b2i(v))
+			}
+			cs := fmt.Sprintf("task with %d conditional outgoing flows, conditions %v", k, cn)
+			env.Current(cs)
+			defs, err := ParseDefs(p.XML(""))
+			must(err)
+			in, err := StartInst(defs, InstOpt{Vars: vars})
+			must(err)
+			rep.Evaluations++
+			rep.Count("conditional_flows")
+			if !in.Answer("T", tmoStep) {
+				rep.Violate("C01-token-game", cs, "the task was never requested")
+				in.Close()
+				continue
+			}
+			want := 0
+			for _, c := range cn {
+				want += c
+			}
+			in.WaitUntil(tmoStep, func(l []Ev) bool {
+				n := 0
+				for i := 0; i < k; i++ {
+					n += countEv(l, "task", fmt.Sprintf("X%d", i))
+				}
+				return n >= want
+			})
+			time.Sleep(6 * time.Millisecond)
+			log := in.Log()
+			var requested []int
+			for i := 0; i < k; i++ {
+				for c := countEv(log, "task", fmt.Sprintf("X%d", i)); c > 0; c-- {
+					requested = append(requested, i)
+				}
+			}
+			nsrc := countEv(log, "task", "T")
+			var wantReq []int
+			for i, c := range cn {
+				if c == 1 {
+					wantReq = append(wantReq, i)
+				}
+			}
+			if !intsEq(requested, wantReq) || nsrc != 1 {
+				rep.Violate("C01-token-game", cs, fmt.Sprintf("downstream tasks requested %v (expected %v), the task itself requested %d times (expected once); log: %s", requested, wantReq, nsrc, logString(log)))
+			}
+			for _, i := range requested {
+				in.Answer(fmt.Sprintf("X%d", i), time.Second)
+			}
+			completed := in.WaitCease(tmoStep)
+			if !completed {
+				rep.Violate("C01-end-events", cs, "every task answered, the instance did not complete; log: "+logString(in.Log()))
+			}
+			in.Close()
+			litems = append(litems, fmt.Sprintf("(%s,%s,%d,%d)", natList(cn), natList(requested), nsrc, b2i(completed)))
+		}
+	}
+	env.WriteCases(rep, "_leave", "Corr.C01corr", "list nat * list nat * nat * nat", litems, "c01_leave_mismatches")
 	env.WriteCases(rep, "", "Corr.C01corr", "blk * list bool * list nat * list ostep * list bool * list (list nat)", items, "c01_mismatches")
 	env.WriteReport(rep)
 }
